@@ -45,7 +45,7 @@ func c16Relations(thorough bool) []c16Rel {
 		n = 3
 	}
 	atoms := ref.Strings(alpha, n)
-	small := ref.Strings(alpha, n)
+	small := ref.Strings(append(append([]string{}, alpha...), "\x00"), n) // sub_atom/5 also over the NUL character
 	listsC := ref.Lists([]T{A("a"), A("b"), I(1)}, n)
 	terms := []T{A("a"), I(1), ref.Flt(1.5), A("[]"), Cm("f", A("a")), Cm("f", A("a"), A("b")), Cm("g", A("b")), Cm("f", Cm("f", A("a"))),
 		ref.List(A("a"), A("b")), Cm("f", A("a"), A("a"), A("c")), Cm("-", I(1), I(2)), Cm("é", A("日"))}
@@ -110,6 +110,8 @@ func c16Run(im *h.Impl, c *c16Case) (exp, act string, ok bool) {
 	}
 	return exp, act, true
 }
+
+var c16Calls int
 
 func c16Work(w *h.W) {
 	im := h.NewImpl()
@@ -280,7 +282,14 @@ func c16Work(w *h.W) {
 					}
 					c := &c16Case{Rel: rel.Name, Goal: ref.Enc(&ref.Cmp{F: rel.Name, Args: args}), Names: names, Expected: expected}
 					w.Guard(c)
-					exp, act, ok := c16Run(im, c)
+					// calls that involve the NUL character (the one-character atom whose internal value is 0) and every 37th
+					// call run on a FRESH interpreter: the first call of a built-in on an interpreter is a state of its own
+					use := im
+					c16Calls++
+					if strings.ContainsRune(c.Goal.Txt, 0) || strings.Contains(c.Goal.Txt, "\\x0\\") || c16Calls%37 == 0 {
+						use = h.NewImpl()
+					}
+					exp, act, ok := c16Run(use, c)
 					w.Unguard()
 					w.Eval(1)
 					w.States(1)
@@ -497,7 +506,7 @@ func c16Replay(b []byte) (string, string, bool) {
 func init() {
 	h.Register(&h.Check{
 		ID: "C16",
-		Rule: "for each of the 17 predicates: the COMPLETE finite relation over a domain is computed by brute force (atoms of <= 2/3 characters over {a,b,é,日} so that byte and character offsets differ; lists of <= 3/4 elements; 12 terms; integers near 0 and near +-2^63), then for every instantiation pattern the predicate's modes admit and every combination of bound values (all projections of the relation plus all one-position mutations, i.e. matching and non-matching calls) the call is run to exhaustion and its answers compared AS A MULTISET with the matching tuples; modes that create variables or enumerate infinitely (length/2, append/3, between/3 with inf, member/select on partial lists, functor/3 and =../2 construction) are compared with the reference machine on their first answers; values outside the domain altogether (codes beyond 32 bits, negative, surrogate, beyond U+10FFFF; huge lengths) must not be answered; chains: the input list is itself the answer of one of 12 built-in constructions (literal, append/3, findall/3, sort/2, =../2, atom_chars/2, atom_codes/2, copy_term/2, length/2, term_variables/2, nested, append in split mode) at every length 0..9 (10), and every ordered pair of 11 calls that extend/decompose that same list runs in one conjunction with both answers kept, compared with the reference machine; fresh identity: atoms whose substrings no execution of the process has interned before (unique doubled names, ASCII and multi-byte) through 7 goals over sub_atom/5, atom_concat/3, atom_chars/2, atom_codes/2: answers with equal text are one atom (== implies unifiable), within a call, across calls and across routes. Non-trivial = at least one matching tuple; distinct = goal text.",
+		Rule: "for each of the 17 predicates: the COMPLETE finite relation over a domain is computed by brute force (atoms of <= 2/3 characters over {a,b,é,日} (sub_atom/5: plus the NUL character) so that byte and character offsets differ; calls involving NUL and every 37th call run on a fresh interpreter; lists of <= 3/4 elements; 12 terms; integers near 0 and near +-2^63), then for every instantiation pattern the predicate's modes admit and every combination of bound values (all projections of the relation plus all one-position mutations, i.e. matching and non-matching calls) the call is run to exhaustion and its answers compared AS A MULTISET with the matching tuples; modes that create variables or enumerate infinitely (length/2, append/3, between/3 with inf, member/select on partial lists, functor/3 and =../2 construction) are compared with the reference machine on their first answers; values outside the domain altogether (codes beyond 32 bits, negative, surrogate, beyond U+10FFFF; huge lengths) must not be answered; chains: the input list is itself the answer of one of 12 built-in constructions (literal, append/3, findall/3, sort/2, =../2, atom_chars/2, atom_codes/2, copy_term/2, length/2, term_variables/2, nested, append in split mode) at every length 0..9 (10), and every ordered pair of 11 calls that extend/decompose that same list runs in one conjunction with both answers kept, compared with the reference machine; fresh identity: atoms whose substrings no execution of the process has interned before (unique doubled names, ASCII and multi-byte) through 7 goals over sub_atom/5, atom_concat/3, atom_chars/2, atom_codes/2: answers with equal text are one atom (== implies unifiable), within a call, across calls and across routes. Non-trivial = at least one matching tuple; distinct = goal text.",
 		Explanation: "state = one call pattern with bound values; transition = the call run to exhaustion on the real interpreter; oracle = the brute-force relation filtered by the bound arguments (each tuple exactly once, nothing else) - which also gives the monotonicity clause, since a more instantiated call is compared with the matching subset of the same relation",
 		Assumptions: []string{"ref/relations: brute-force definitions (all splits, all (B,L,A) triples, all index/element pairs ...) with text measured in runes", "member/2 and select/3 answer once per occurrence (position) of the element", "errors for calls outside the modes belong to C05"},
 		Work:        c16Work,
